@@ -84,12 +84,23 @@ def operations_traverse(fm, pid, out):
     must work on whatever a reader returns (they only need the tree and the constraint form)."""
     import flamapy.metamodels.fm_metamodel.operations as ops
     from flamapy.metamodels.fm_metamodel.models.feature_model import split_constraint
+    heavy = []
+    for c in fm.ctcs:
+        try:
+            e = build.node_to_expr(c.ast.root)
+        except ValueError:
+            continue
+        heavy.append(logic.is_logical(e) and logic.clause_cost(e) is None)
     for name in ("FMAtomicSets", "FMAverageBranchingFactor", "FMCoreFeatures", "FMCountLeafs",
                  "FMEstimatedConfigurationsNumber", "FMLeafFeatures", "FMMaxDepthTree", "FMMetrics", "FMVariationPoints"):
+        if name == "FMMetrics" and any(heavy):
+            continue       # clause conversion of this constraint is exponential (hours): not a question of traversal
         got = lib(lambda name=name: getattr(ops, name)().execute(fm).get_result())
         if isinstance(got, Raised):
             out.append((f"{pid}.operation-cannot-traverse:{name}:{got.label}", got.text))
-    for c in fm.ctcs:
+    for c, hv in zip(fm.ctcs, heavy + [False] * len(fm.ctcs)):
+        if hv:
+            continue
         if c.is_logical_constraint() if not isinstance(lib(c.is_logical_constraint), Raised) else False:
             got = lib(split_constraint, c)
             if isinstance(got, Raised):
